@@ -8,21 +8,37 @@ EXTENDS Bits, FiniteSets, TLC
 Less(a, b) == a[1] < b[1] \/ (a[1] = b[1] /\ a[2] < b[2])
 MinOf(heap) == CHOOSE x \in heap : \A y \in heap : x = y \/ Less(x, y)
 
+\* Weight addition.  The integer constructors add exactly (m = 0).  The float constructors add in the caller's float
+\* type: for integer-valued weights that is the exact sum rounded to a significand of m bits, ties to even (IEEE-754
+\* round-to-nearest-even; m = 24 for f32).  Both trees must round identically, or they describe different codes.
+RoundTo(n, m) == LET bl == BitLen(n) IN
+                 IF bl <= m THEN n
+                 ELSE LET sh == bl - m
+                          q == n \div Pow2(sh)
+                          r == n % Pow2(sh)
+                          half == Pow2(sh - 1)
+                          up == r > half \/ (r = half /\ q % 2 = 1)
+                      IN (q + (IF up THEN 1 ELSE 0)) * Pow2(sh)
+Sum(x, y, m) == IF m = 0 THEN x + y ELSE RoundTo(x + y, m)
+Representable(n, m) == m = 0 \/ RoundTo(n, m) = n
+
 \* par: function from node index to <<parent index, bit>>
-RECURSIVE Build(_, _, _)
-Build(heap, par, next) ==
+RECURSIVE BuildM(_, _, _, _)
+BuildM(heap, par, next, m) ==
     IF Cardinality(heap) < 2 THEN par
     ELSE LET a == MinOf(heap)
              b == MinOf(heap \ {a})
-         IN Build((heap \ {a, b}) \cup {<<a[1] + b[1], next>>}, par @@ (a[2] :> <<next, 0>>) @@ (b[2] :> <<next, 1>>), next + 1)
+         IN BuildM((heap \ {a, b}) \cup {<<Sum(a[1], b[1], m), next>>}, par @@ (a[2] :> <<next, 0>>) @@ (b[2] :> <<next, 1>>), next + 1, m)
 Empty == [x \in {} |-> <<0, 0>>]
-Tree(w) == Build({ <<w[i], i - 1>> : i \in 1..Len(w) }, Empty, Len(w))     \* symbols are 0..n-1
+TreeM(w, m) == BuildM({ <<w[i], i - 1>> : i \in 1..Len(w) }, Empty, Len(w), m)     \* symbols are 0..n-1
+Tree(w) == TreeM(w, 0)
 
 \* bits from the leaf up to the root (the "suffix" order the encoder tree emits natively)
 RECURSIVE Suffix(_, _)
 Suffix(par, node) == IF node \in DOMAIN par THEN <<par[node][2]>> \o Suffix(par, par[node][1]) ELSE <<>>
 Codeword(w, sym) == Rev(Suffix(Tree(w), sym))                             \* prefix order (root to leaf)
 Codebook(w) == [i \in 1..Len(w) |-> Codeword(w, i - 1)]
+CodebookM(w, m) == [i \in 1..Len(w) |-> Rev(Suffix(TreeM(w, m), i - 1))]
 
 IsPrefix(a, b) == Len(a) <= Len(b) /\ SubSeq(b, 1, Len(a)) = a
 PrefixFree(cb) == \A i, j \in 1..Len(cb) : i # j => ~IsPrefix(cb[i], cb[j])
@@ -50,4 +66,5 @@ Walk(par, node, bits) == IF bits = <<>> THEN node
                          ELSE Walk(par, CHOOSE c \in Children(par, node) : par[c][2] = bits[1], Tail(bits))
 Root(w) == 2 * Len(w) - 2
 DecodesBack(w) == \A s \in 0..(Len(w) - 1) : Walk(Tree(w), Root(w), Codeword(w, s)) = s
+DecodesBackM(w, m) == \A s \in 0..(Len(w) - 1) : Walk(TreeM(w, m), Root(w), CodebookM(w, m)[s + 1]) = s
 =============================================================================
